@@ -722,10 +722,11 @@ func (o *cpObs) transferRound(s *Sim, f *cpFile, rg *rand.Rand, benign bool) {
 				return
 			}
 			c.next++
+			synctest.Wait() // one stimulus at a time: how far a tracker commit reaches depends on how many blocks it sees queued
 		}
-		synctest.Wait()
 		if rg.IntN(2) == 0 {
 			c.led.WaitForCommit(c.next - 1)
+			synctest.Wait()
 		}
 		s.stat("c16.prefed_consumer", 1)
 		desc += fmt.Sprintf(" prefed=%d", k)
@@ -1092,8 +1093,8 @@ func (o *cpObs) progress(s *Sim, c *cpConsumer, R basics.Round) bool {
 		}
 		c.next++
 		fed++
+		synctest.Wait()
 	}
-	synctest.Wait()
 	s.stat("c16.progress_blocks_fed", int64(fed))
 	if fed == 0 {
 		return true
@@ -1118,8 +1119,8 @@ func (o *cpObs) feedFollower(s *Sim) {
 			return
 		}
 		fl.next++
+		synctest.Wait()
 	}
-	synctest.Wait()
 	if l := fl.led.GetLastCatchpointLabel(); l != "" {
 		if r, ok := parseLabel(l); ok {
 			if _, seen := fl.labels[r]; !seen {
